@@ -185,9 +185,49 @@ func (c *Ctx) freshResults() {
 	}
 }
 
+// commitViews: committing to larger blobs (40..300 shares, i.e. dozens to hundreds of subtrees at the usual
+// thresholds) built on views of one buffer: nothing may be written, concurrent callers get the same result
+// (under the race detector this also covers races INSIDE one call)
+func (c *Ctx) commitViews() {
+	for rep := 0; rep < c.n(6, 40); rep++ {
+		ns := c.userNamespaces(1)[0]
+		spec := c.randBlob(ns, 478+482*c.rng.Range(39, 300)-c.rng.Intn(400), rep%2 == 1)
+		flat, views := flatten([][]byte{spec.ns, spec.data, spec.signer}, c.rng.Pick([]int{0, 7, 600}))
+		nsV, err := share.NewNamespaceFromBytes(views[0])
+		if err != nil {
+			continue
+		}
+		var signer []byte
+		if spec.ver == 1 {
+			signer = views[2]
+		}
+		vb, err := share.NewBlob(nsV, views[1], spec.ver, signer)
+		if err != nil {
+			continue
+		}
+		thr := c.rng.Pick([]int{1, 64, 64, 1 << 20})
+		c.aliasCheck(fmt.Sprintf("large blob views (%d bytes, threshold %d)", len(spec.data), thr), flat, []roCall{
+			{"GenerateSubtreeRoots(large blob)", func() string {
+				r, err := inclusion.GenerateSubtreeRoots(vb, thr)
+				return fmt.Sprint(len(r), err) + digList(r)
+			}},
+			{"CreateCommitment(large blob)", func() string {
+				r, err := inclusion.CreateCommitment(vb, simpleMerkle, thr)
+				return hx(r) + fmt.Sprint(err)
+			}},
+			{"Blob.ToShares(large blob)", func() string {
+				sh, err := vb.ToShares()
+				return fmt.Sprint(len(sh), err) + digList(sharesToBytes(sh))
+			}},
+		})
+		c.dist("large-blob-views")
+	}
+}
+
 func streamAlias(c *Ctx) {
 	c.stats.Cases = 0
 	c.freshResults()
+	c.commitViews()
 	nc := c.n(300, 4000)
 	for i := 0; i < nc; i++ {
 		c.stats.Cases++
